@@ -191,6 +191,18 @@ def r2_peek_then_consume(ctx):
     ctx.ob("R03.2", "decode:src-is-never-replaced", not repl, "src/protocol/codec.rs:%s" % repl[0][1] if repl else "", "no assignment through `src`" if not repl else
            "decode assigns a new buffer to `*src` (line %s): whatever was still in the old one — the first bytes of the next header when a read ended 1..6 bytes into it — is thrown away, and everything after "
            "is mis-framed; the same bytes cut anywhere else decode correctly" % repl[0][1])
+    # `Ok(None)` means "nothing consumed, call me again when more bytes have arrived" (Decoder contract): after a consuming call
+    # decode returns a frame, never None — otherwise complete frames behind the consumed bytes wait for new input
+    nones = []
+    for kind, bi, si, rv in dec.defs().get(0, []):
+        if kind == "assign" and rv["r"] == "aggregate" and rv["kind"].get("variant") == "Ok" and rv["ops"]:
+            t_ = o.of_operand(rv["ops"][0])
+            if isinstance(t_, tuple) and t_ and t_[0] == "agg" and t_[2] == "None":
+                nones.append(bi)
+    late_none = [c for c in consuming if c.norm.split("::")[-1] in ("advance", "split_to", "split_off", "truncate", "clear", "copy_to_bytes") and cfg.reach(cfg.succ(c.bb)) & set(nones)]
+    ctx.ob("R03.2", "decode:None-only-when-nothing-was-consumed", not late_none, late_none[0].site if late_none else "", "no Ok(None) is reachable after bytes were consumed" if not late_none else
+           "decode can return Ok(None) after it has consumed bytes (%s at line %s): the receive loop takes None for 'need more input' and goes back to the transport read, so complete frames already in the buffer — other "
+           "streams' data — are not dispatched until the peer sends something else" % (late_none[0].norm.split("::")[-1], late_none[0].line))
     # early exits return Ok(None)
     for label, edges in (("header", hdr_true), ("frame", full_true)):
         starts = [e[1] for e in edges]
